@@ -5,6 +5,7 @@ import (
 	"fmt"
 )
 
+//go:norace
 func init() { Runners["C18"] = runC18 }
 
 // runC18: storage-fault enumeration. A short generated history contains one
@@ -16,6 +17,8 @@ func init() { Runners["C18"] = runC18 }
 // failure, the chain moves on by one block, and the end state must equal the
 // fault-free behaviour (ledger model, acknowledged wallet set, finished tasks,
 // no skipped or duplicated address index).
+//
+//go:norace
 func runC18(w *World, p map[string]int) {
 	t := w.Plan
 	k := drawKnobs(w)
